@@ -710,9 +710,12 @@ class EvolutionSuperOperator(SuperOperator, TimeDependent, Saveable):
         if time is not None:
             ti, dt = self.time.locate(time)
 
-            return SuperOperator(data=self.data[ti, :, :, :, :])
+            # the superoperator handed out gets its own copy of the data: it
+            # is basis managed and transformed in place, which must not 
+            # reach the values stored here
+            return SuperOperator(data=self.data[ti, :, :, :, :].copy())
         else:
-            return SuperOperator(data=self.data)
+            return SuperOperator(data=self.data.copy())
 
           
     def apply(self, time, target, copy=True):
